@@ -686,7 +686,7 @@ impl Prop for C17 {
         if tier != Tier::Thorough {
             return Vec::new();
         }
-        crate::fuzz::run(
+        let mut v = crate::fuzz::run(
             &crate::fuzz::Campaign {
                 property: "C17",
                 target: "cfg_capture",
@@ -695,8 +695,11 @@ impl Prop for C17 {
                 max_len: 120,
                 seed,
                 seeds: crate::fuzz::random_seeds(seed, 24, 120),
+                max_time: 1500,
             },
             ev,
-        )
+        );
+        v.extend(fuzz_extra("C17", seed, ev));
+        v
     }
 }
